@@ -7,7 +7,7 @@
     [coalesce_entries] (the proposed one-line repair).
 
     Only statements, [exact lemma] proofs, [Print Assumptions], examples. *)
-From Patronus Require Import GuardSem BddProofs GuardProofs SummaryProofs CoalesceProofs IteImportProofs HistoryProofs.
+From Patronus Require Import GuardSem BddProofs GuardProofs SummaryProofs CoalesceProofs IteImportProofs HistoryProofs BddCanonProofs.
 Open Scope N_scope.
 
 (* ---------------------------------------------------------------- partition_inv *)
@@ -165,6 +165,22 @@ Theorem C20_no_panic :
 Proof. exact (conj coalesce_no_panic bin_no_panic_release). Qed.
 Print Assumptions C20_no_panic.
 
+(* ---------------------------------------------------------------- canonical guards *)
+
+(** The model's guards are canonical, as [boolean_expression::BDD] node numbers are: in
+    every reachable state two guards that agree under every valuation are equal.  (So the
+    guard-equality tests of the Rust code - common guards, is_true, is_false - are modelled
+    by tests on the Boolean functions themselves.) *)
+Theorem C20_guards_canonical :
+  forall debug fixed prog st,
+    vrun debug fixed vinit prog = Ok st ->
+    forall g1 g2,
+      (In g1 (vs_guards st) \/ exists s e, In s (vs_sums st) /\ In e s /\ fst e = g1) ->
+      (In g2 (vs_guards st) \/ exists s e, In s (vs_sums st) /\ In e s /\ fst e = g2) ->
+      (forall v : nat -> bool, bdd_eval v g1 = bdd_eval v g2) -> g1 = g2.
+Proof. exact guards_canonical_lemma. Qed.
+Print Assumptions C20_guards_canonical.
+
 (* ---------------------------------------------------------------- examples (non-vacuity) *)
 
 (** the history of the refutation, on the repaired code: four operations deep, a
@@ -198,3 +214,27 @@ Example C20_example_history :
                 | Panic => False
                 end.
 Proof. intros prog [|]; vm_compute; repeat split. Qed.
+
+(** the hypotheses of the [den_commutes] theorems on concrete summaries: a bin-op through
+    the common-guard fast path (summaries 4, 5 share the guards t0 / not t0), one through
+    the cross product (7 x 5), an ite and a coalesce; under each of the four valuations of
+    (t0, t1) the selected value of the result is the operation on the selected values *)
+Example C20_example_den :
+  let add := fun a b => BVAdd a b 8 in
+  let prog := [ONew t0; ONew val0; ONew val1; ONew val2; OIte 0 1 2; OIte 0 2 3; ONew t1; OIte 6 4 3;
+               OBin (fun _ => 0) add 4 5; OBin (fun _ => 0) add 7 5; OCoalesce 9] in
+  match vrun true false vinit prog with
+  | Ok st =>
+      let s := fun i => nth i (vs_sums st) [] in
+      map (fun i => length (s i)) [4; 5; 7; 8; 9; 10]%nat = [2; 2; 3; 2; 4; 4]%nat /\
+      forallb (fun k =>
+        let v := fun i => N.testbit k (N.of_nat i) in
+        let sel := fun i => match vs_den v (s i) with Some x => x | None => lit_false end in
+        Nat.eqb (count_true v (s 9%nat)) 1 &&
+        expr_eqb (sel 8%nat) (add (sel 4%nat) (sel 5%nat)) &&
+        expr_eqb (sel 9%nat) (add (sel 7%nat) (sel 5%nat)) &&
+        expr_eqb (sel 7%nat) (if bsem (vs_terms st) v (sel 6%nat) then sel 4%nat else sel 3%nat) &&
+        expr_eqb (sel 10%nat) (sel 9%nat)) [0; 1; 2; 3] = true
+  | Panic => False
+  end.
+Proof. vm_compute. split; reflexivity. Qed.
